@@ -32,11 +32,11 @@ From MSDM Require Import model.PyVal model.Table.
 Import ListNotations.
 Open Scope string_scope.
 Open Scope Z_scope.
-Definition data_table (c : cls) (fs : list (pv * list pv)) (d : list Z) : table :=
-  let ix := map (fun p => mkField (fst p) (snd p)) fs in
+Definition data_table (c : cls) (fs : list (pv * list pv * domkind)) (d : list Z) : table :=
+  let ix := map (fun p => mkField (fst (fst p)) (snd (fst p)) (snd p)) fs in
   mkTable c ix (fun ixs => nth (ravel (shape_of ix) ixs 0%nat) d 0).
 Definition ctor_valid (fs : list (pv * list pv)) : bool :=
-  let ix := map (fun p => mkField (fst p) (snd p)) fs in validate (shape_of ix) ix.
+  let ix := map (fun p => mkField (fst p) (snd p) DKDom) fs in validate (shape_of ix) ix.
 """
 
 
@@ -145,7 +145,8 @@ def obs_of(x, sns=False):
         if sns and cn == "StateActionTable":
             cn = "StateNextStateTable"
         return ["table", cn, [pv_of(n) for n in a[1]], [[pv_of(e) for e in d] for d in a[2]],
-                list(a[3]), [obs_of(p, sns) for p in a[4]]]
+                list(a[3]), [obs_of(p, sns) for p in a[4]],
+                [{"DKDom": "domaintuple", "DKTuple": "tuple", "DKList": "list"}[ctor(k)[0]] for k in a[5]]]
     raise vlib.CoqError("unknown obs %r" % (x,))
 
 
@@ -306,13 +307,13 @@ def gen_table(rng, outer_size=None):
     rep = {"doms_as": rng.choice(["list", "tuple", "domaintuple"]), "dtype": rng.choice(["int", "int", "float"]),
            "reuse": rng.random() < .3, "ctor": "default", "share_doms": True}
     r = rng.random()
-    if cls in ("Table", "ProbabilityTable") and r < .3:
+    if r < .3:      # numpy array + TableIndex(fields=[Field(name, domain)]): the caller's containers are kept
         rep["ctor"] = "fields"
-    elif cls in ("StateTable", "StateActionTable", "TabularPolicy") and r < .35:
+    elif cls in ("StateTable", "StateActionTable", "TabularPolicy") and r < .55:
         rep["ctor"] = "from_dict"
         if n == 2:
             rep["dtype"] = "float"          # StateActionTable.from_dict fills a float array
-    elif cls in STATE_CLS and r < .55:
+    elif cls in STATE_CLS and r < .7:
         rep["ctor"] = "listdata"
     size = 1
     for d in doms:
@@ -322,6 +323,8 @@ def gen_table(rng, outer_size=None):
         rng.shuffle(data)                   # distinct cells that are NOT the row-major position
     case = {"cls": cls, "names": [enc(x) for x in names], "doms": [[enc(x) for x in d] for d in doms],
             "rep": rep, "data": data}
+    if rep["ctor"] == "fields":
+        case["kinds"] = [rng.choice(["dt", "t", "t", "l", "l"]) for _ in doms]
     if rng.random() < (.65 if cls in PROB_CLS else .3):
         # cells are real numbers (probability rows / large values), compared bit-exactly
         rep["dtype"] = "prob64" if (rep["ctor"] == "from_dict" and n == 2) else rng.choice(["prob64", "prob64", "prob64", "prob32", "prob32", "probint"])
@@ -653,7 +656,10 @@ def oracle_table(case, names, res):
 
 # ---------------------------------------------------------------------------------------------
 def case_term(case, names):
-    fs = coqlist("(%s, %s)" % (gal(nm), coqlist(gal(e) for e in d)) for nm, d in zip(names, case["doms"]))
+    kinds = case.get("kinds") if case.get("rep", {}).get("ctor") == "fields" else None
+    kinds = kinds or ["dt"] * len(case["doms"])
+    fs = coqlist("(%s, %s, %s)" % (gal(nm), coqlist(gal(e) for e in d), {"dt": "DKDom", "t": "DKTuple", "l": "DKList"}[k])
+                 for nm, d, k in zip(names, case["doms"], kinds))
     chains = coqlist(coqlist(gal(s) for s in ch) for ch in case["chains"])
     dup = coqlist("(%s, %s)" % (gal(["i", i]), coqlist(gal(e) for e in d)) for i, d in enumerate(case["ctor_dup"]))
     return "(run_case (data_table %s %s %s) %s, ctor_valid %s)" % (CLS2COQ[case["cls"]], fs, coqlist("%d" % x for x in case["data"]), chains, dup)
@@ -735,6 +741,11 @@ def feats(case, orig, res, F):
     inc("caller_objects_snapshotted(domains,data,selectors)")
     inc("first_results_requeried_after_other_table", sum(1 for c in res["chains"] if "stale_ok" in c))
     inc("dtype=" + rep.get("dtype", "int"))
+    if rep.get("ctor") == "fields":
+        for k in case.get("kinds", []):
+            inc("fields_ctor_domain_held_in=" + {"dt": "domaintuple", "t": "plain tuple", "l": "plain list"}[k])
+        if any(k != "dt" for k in case.get("kinds", [])):
+            inc("tables_with_plain_sequence_domains")
     if "vals" in case:
         vs = [Fraction(*x) for x in case["data"]]
         isprob = case["cls"] in PROB_CLS
@@ -757,7 +768,9 @@ def feats(case, orig, res, F):
 
 
 def strip(o):
-    return o[:6] if o and o[0] == "table" else o
+    """an implementation observation in the shape of a model observation: class, names, domains, data, row
+    probabilities, and the Python container type of every domain"""
+    return o[:6] + [o[7]["dom_types"]] if o and o[0] == "table" else o
 
 
 def run(ctx):
@@ -859,7 +872,7 @@ def run(ctx):
             for o in out["steps"]:
                 if o[0] == "table":
                     meta = o[7]
-                    if meta["data_shape"] != [len(d) for d in o[3]] or any(t != "domaintuple" for t in meta["dom_types"]):
+                    if meta["data_shape"] != [len(d) for d in o[3]]:
                         ctx_violation("C12:returned-table-shape-disagrees-with-its-index", {"case": sub(j), "impl": out}, found=True)
             why = oracle_chain(case, names, fam, ch, out)
             if fam != "ext":
